@@ -1,7 +1,7 @@
 #!/usr/bin/env python3
 """setup_cmd: nothing is prebuilt (every check rebuilds from /repo's working tree); verify the toolchain is present."""
 import shutil, subprocess, sys
-need = ["g++", "python3", "valgrind"]
+need = ["g++", "gcc", "python3", "valgrind", "spin", "nm", "cmake"]
 missing = [t for t in need if not shutil.which(t)]
 if missing:
     print("missing tools:", missing); sys.exit(1)
